@@ -780,6 +780,186 @@ def scan_mutable_defaults() -> None:
         raise Unsupported('shared mutable defaults reachable from option maps: ' + '; '.join(hits[:4]))
 
 
+
+# ---------------------------------------------------------------------------------------------
+# T2: the getters of LanguageConfig, statement by statement, into the exception monad cfg_result over pyv
+# ---------------------------------------------------------------------------------------------
+
+class GetTr:
+    """Subset: `x = e`, `return e`, `if c: return e` / `if c: raise TypeError(...)` (no else), and
+    `try: x = e | return e / except KeyError: if d is not self._UNSET: return d; raise`.
+    Expressions: names, str/bool/None constants, self._UNSET, self._sections, a[b], `a if c else b`, str(x), bool(x), x.lower(),
+    calls of already translated methods of self (positional or default_value= keyword).
+    Conditions: `is None`, `is not None`, `is not self._UNSET`, ==, not, or, isinstance(x, list|dict|DefaultValue).
+    Every expression is a term of type `cfg_result pyv`; sequencing is `rbind` (an exception skips the rest)."""
+
+    def __init__(self, methods: typing.Dict[str, str]):
+        self.methods = methods        # python method name -> gallina function (sections first)
+        self.n = 0
+
+    def fresh(self, b: str) -> str:
+        self.n += 1
+        return '%s_%d' % (b, self.n)
+
+    def ex(self, e: ast.expr, env) -> str:
+        if isinstance(e, ast.Name):
+            if e.id not in env:
+                raise Unsupported('free name %s' % e.id)
+            return '(CfgOk %s)' % env[e.id]
+        if isinstance(e, ast.Constant):
+            v = e.value
+            if isinstance(v, str):
+                return '(CfgOk (PV (Leaf false (AStr %s))))' % coq_str(v)
+            if v is None:
+                return '(CfgOk (PV (Leaf false ANone)))'
+            if isinstance(v, bool):
+                return '(CfgOk (PV (Leaf false (ABool %s))))' % ('true' if v else 'false')
+            raise Unsupported('constant %r' % (v,))
+        if isinstance(e, ast.Attribute) and ast.unparse(e) == 'self._UNSET':
+            return '(CfgOk PUnset)'
+        if isinstance(e, ast.Attribute) and ast.unparse(e) == 'self._sections':
+            return '(CfgOk (PV (Node sections)))'
+        if isinstance(e, ast.Subscript):
+            a, b = self.fresh('d'), self.fresh('k')
+            return '(rbind %s (fun %s => rbind %s (fun %s => py_getitem %s %s)))' % (self.ex(e.value, env), a, self.ex(e.slice, env), b, a, b)
+        if isinstance(e, ast.IfExp):
+            c = self.fresh('c')
+            return '(rbind %s (fun %s : bool => if %s then %s else %s))' % (self.cond(e.test, env), c, c, self.ex(e.body, env), self.ex(e.orelse, env))
+        if isinstance(e, ast.Call):
+            f = ast.unparse(e.func)
+            if f in ('str', 'bool') and len(e.args) == 1 and not e.keywords:
+                x = self.fresh('x')
+                body = 'py_str_v %s' % x if f == 'str' else 'CfgOk (PV (Leaf false (ABool (py_truthy %s))))' % x
+                return '(rbind %s (fun %s => %s))' % (self.ex(e.args[0], env), x, body)
+            if isinstance(e.func, ast.Attribute) and e.func.attr == 'lower' and not e.args and not e.keywords:
+                x = self.fresh('x')
+                return '(rbind %s (fun %s => py_lower %s))' % (self.ex(e.func.value, env), x, x)
+            if f.startswith('self.') and f[5:] in self.methods:
+                args = list(e.args)
+                for kw in e.keywords:
+                    if kw.arg != 'default_value' or len(args) != 2:
+                        raise Unsupported('keyword argument %s' % kw.arg)
+                    args.append(kw.value)
+                if len(args) != 3:
+                    raise Unsupported('call %s with %d arguments' % (f, len(args)))
+                names = [self.fresh('a') for _ in args]
+                t = '%s sections %s' % (self.methods[f[5:]], ' '.join(names))
+                for a, nm in reversed(list(zip(args, names))):
+                    t = 'rbind %s (fun %s => %s)' % (self.ex(a, env), nm, t)
+                return '(%s)' % t
+            raise Unsupported('call %s' % f)
+        raise Unsupported('expression %s' % ast.unparse(e))
+
+    def cond(self, e: ast.expr, env) -> str:
+        if isinstance(e, ast.Compare) and len(e.ops) == 1:
+            op, l, r = e.ops[0], e.left, e.comparators[0]
+            x = self.fresh('x')
+            if isinstance(op, (ast.Is, ast.IsNot)):
+                neg = isinstance(op, ast.IsNot)
+                if isinstance(r, ast.Constant) and r.value is None:
+                    t = 'py_is_none %s' % x
+                elif ast.unparse(r) == 'self._UNSET':
+                    t = 'py_is_unset %s' % x
+                else:
+                    raise Unsupported('identity test against %s' % ast.unparse(r))
+                return '(rbind %s (fun %s => CfgOk (%s)))' % (self.ex(l, env), x, ('negb (%s)' % t) if neg else t)
+            if isinstance(op, ast.Eq):
+                y = self.fresh('y')
+                return '(rbind %s (fun %s => rbind %s (fun %s => CfgOk (py_eq %s %s))))' % (self.ex(l, env), x, self.ex(r, env), y, x, y)
+            raise Unsupported('comparison %s' % ast.unparse(e))
+        if isinstance(e, ast.UnaryOp) and isinstance(e.op, ast.Not):
+            x = self.fresh('x')
+            return '(rbind %s (fun %s => CfgOk (negb (py_truthy %s))))' % (self.ex(e.operand, env), x, x)
+        if isinstance(e, ast.BoolOp) and isinstance(e.op, ast.Or):
+            t = self.cond(e.values[-1], env)
+            for v in reversed(e.values[:-1]):
+                c = self.fresh('c')
+                t = '(rbind %s (fun %s : bool => if %s then CfgOk true else %s))' % (self.cond(v, env), c, c, t)
+            return t
+        if isinstance(e, ast.Call) and ast.unparse(e.func) == 'isinstance' and len(e.args) == 2:
+            x = self.fresh('x')
+            prim = {'list': 'py_is_list', 'dict': 'py_is_dict', 'DefaultValue': 'py_is_default'}.get(ast.unparse(e.args[1]))
+            if prim is None:
+                raise Unsupported('isinstance against %s' % ast.unparse(e.args[1]))
+            return '(rbind %s (fun %s => CfgOk (%s %s)))' % (self.ex(e.args[0], env), x, prim, x)
+        raise Unsupported('condition %s' % ast.unparse(e))
+
+    def block(self, stmts: typing.List[ast.stmt], env) -> str:
+        if not stmts:
+            raise Unsupported('control reaches the end of the function')
+        s, rest = stmts[0], stmts[1:]
+        if isinstance(s, ast.Expr) and isinstance(s.value, ast.Constant):
+            return self.block(rest, env)
+        if isinstance(s, ast.Return) and s.value is not None:
+            return self.ex(s.value, env)
+        if isinstance(s, ast.Assign) and len(s.targets) == 1 and isinstance(s.targets[0], ast.Name):
+            nm = self.fresh(s.targets[0].id)
+            env2 = dict(env)
+            env2[s.targets[0].id] = nm
+            return '(rbind %s (fun %s =>\n  %s))' % (self.ex(s.value, env), nm, self.block(rest, env2))
+        if isinstance(s, ast.If) and not s.orelse and len(s.body) == 1:
+            c = self.fresh('c')
+            b = s.body[0]
+            if isinstance(b, ast.Return) and b.value is not None:
+                then = self.ex(b.value, env)
+            elif isinstance(b, ast.Raise) and ast.unparse(b.exc).startswith('TypeError('):
+                then = 'CfgTypeError'
+            else:
+                raise Unsupported('if body %s' % ast.unparse(b).splitlines()[0])
+            return '(rbind %s (fun %s : bool => if %s then %s else\n  %s))' % (self.cond(s.test, env), c, c, then, self.block(rest, env))
+        if isinstance(s, ast.Try) and len(s.body) == 1 and len(s.handlers) == 1 and not s.orelse and not s.finalbody:
+            h = s.handlers[0]
+            if not (isinstance(h.type, ast.Name) and h.type.id == 'KeyError' and h.name is None and len(h.body) == 2
+                    and isinstance(h.body[0], ast.If) and not h.body[0].orelse and len(h.body[0].body) == 1
+                    and isinstance(h.body[0].body[0], ast.Return) and isinstance(h.body[1], ast.Raise) and h.body[1].exc is None):
+                raise Unsupported('except clause')
+            handler = '(rbind %s (fun c_h : bool => if c_h then %s else CfgKeyError))' % (self.cond(h.body[0].test, env),
+                                                                                         self.ex(h.body[0].body[0].value, env))
+            b = s.body[0]
+            if isinstance(b, ast.Return) and b.value is not None:
+                return ('(match %s with\n  | CfgKeyError => %s\n  | other => other\n  end)' % (self.ex(b.value, env), handler))
+            if isinstance(b, ast.Assign) and len(b.targets) == 1 and isinstance(b.targets[0], ast.Name):
+                nm = self.fresh(b.targets[0].id)
+                env2 = dict(env)
+                env2[b.targets[0].id] = nm
+                return ('(match %s with\n  | CfgKeyError => %s\n  | CfgOk %s =>\n  %s\n  | CfgTypeError => CfgTypeError\n  | CfgUnmodelled => CfgUnmodelled\n  end)'
+                        % (self.ex(b.value, env), handler, nm, self.block(rest, env2)))
+            raise Unsupported('try body')
+        raise Unsupported('statement %s' % ast.unparse(s).splitlines()[0])
+
+
+def translate_getters() -> str:
+    tree = gen.parse_repo('src/nunavut/lang/_config.py')
+    ut = gen.parse_repo('src/nunavut/_utilities.py')
+    # @no_default_value: wrapper(result) = result.value if isinstance(result, DefaultValue) else result
+    nd = find_function(ut, None, 'no_default_value')
+    want = ["def wrapper(*args: Any, **kwargs: Any) -> Any:\n    result = func(*args, **kwargs)\n    if isinstance(result, DefaultValue):\n"
+            "        return result.value\n    return result", 'return wrapper']
+    if _stmts(nd) != want:
+        raise Unsupported('no_default_value has an unknown shape')
+    out = ['(* @no_default_value *)\nDefinition no_default_value (r : cfg_result pyv) : cfg_result pyv :=\n'
+           '  rbind r (fun result => if py_is_default result then CfgOk (py_default_value result) else CfgOk result).']
+    methods: typing.Dict[str, str] = {}
+    for name in ['_get_config_value_raw', 'get_config_value', 'get_config_value_as_bool', 'get_config_value_as_dict', 'get_config_value_as_list']:
+        fn = find_function(tree, 'LanguageConfig', name)
+        decos = [ast.unparse(d) for d in fn.decorator_list]
+        if decos not in ([], ['no_default_value']):
+            raise Unsupported('decorators of %s' % name)
+        ps = [a.arg for a in fn.args.args]
+        if ps != ['self', 'section_name', 'key', 'default_value'] or fn.args.vararg or fn.args.kwarg or fn.args.kwonlyargs:
+            raise Unsupported('parameters of %s' % name)
+        tr = GetTr(methods)
+        env = {'section_name': 'section_name', 'key': 'key', 'default_value': 'default_value'}
+        body = tr.block(list(fn.body), env)
+        if decos:
+            body = 'no_default_value %s' % body
+        g = 'LanguageConfig_' + name
+        out.append('(* LanguageConfig.%s *)\nDefinition %s (sections : list (list N * cv)) (section_name key default_value : pyv) : cfg_result pyv :=\n  %s.'
+                   % (name, g, body))
+        methods[name] = g
+    return '\n\n'.join(out)
+
+
 def gen_c13() -> typing.Tuple[bool, str]:
     try:
         ut = gen.parse_repo('src/nunavut/_utilities.py')
@@ -802,6 +982,7 @@ def gen_c13() -> typing.Tuple[bool, str]:
                      'Definition cpp_documented_group_keys : list (list N * list (list N)) :=\n  [%s].'
                      % ';\n   '.join('(%s, [%s])' % (coq_str(k), '; '.join(coq_str(x) for x in v)) for k, v in docs.items()))
         parts.append(translate_cpp_validate())
+        parts.append(translate_getters())
         parts.append(translate_create())
         check_pins()
         scan_mutable_defaults()
